@@ -58,6 +58,20 @@ func driveOps(c *Ctx) error {
 		ev := J{"ev": "pair", "rel": rel, "api": api, "x": x,
 			"a": projectArgs(a), "b": projectArgs(b),
 			"ra": run(api, a, x), "rb": run(api, b, x)}
+		if rel == "weak" {
+			// purity of the weakened run: distinct outcomes over repeated identical calls
+			seen := map[string]bool{}
+			rbs := []any{}
+			for i := 0; i < 6; i++ {
+				r := run(api, b, x)
+				if k := jsonKey(r); !seen[k] {
+					seen[k] = true
+					rbs = append(rbs, r)
+				}
+			}
+			sort.Slice(rbs, func(i, k int) bool { return jsonKey(rbs[i]) < jsonKey(rbs[k]) })
+			ev["rbs"] = rbs
+		}
 		if am && len(api) > 3 && api[:3] == "fn:" {
 			ev["am"] = allowMarked(api[3:], x, len(a))
 		}
@@ -68,25 +82,25 @@ func driveOps(c *Ctx) error {
 	}
 	emitCall := func(api string, x J, aj []any) {
 		a0 := concretizeArgs(aj, 0)
-		seen := map[string]bool{}
-		rs := []any{}
-		for rep := 0; rep < reps; rep++ {
-			a := a0
-			if rep > 0 {
-				a = concretizeArgs(aj, rep)
-			}
-			// the same call twice on the same operands, plus every representation
-			for k := 0; k < 2; k++ {
-				r := run(api, a, x)
+		// rs: distinct outcomes of repeating the call on the very same operand values;
+		// rr: distinct outcomes across physical representations of equal operands
+		collect := func(n int, mk func(i int) []cty.Value) []any {
+			seen := map[string]bool{}
+			out := []any{}
+			for i := 0; i < n; i++ {
+				r := run(api, mk(i), x)
 				key := jsonKey(r)
 				if !seen[key] {
 					seen[key] = true
-					rs = append(rs, r)
+					out = append(out, r)
 				}
 			}
+			sort.Slice(out, func(i, k int) bool { return jsonKey(out[i]) < jsonKey(out[k]) })
+			return out
 		}
-		sort.Slice(rs, func(i, k int) bool { return jsonKey(rs[i]) < jsonKey(rs[k]) })
-		c.Out.Emit(J{"ev": "call", "api": api, "x": x, "a": projectArgs(a0), "r": run(api, a0, x), "rs": rs})
+		rs := collect(reps*2, func(int) []cty.Value { return a0 })
+		rr := collect(reps, func(i int) []cty.Value { return concretizeArgs(aj, i) })
+		c.Out.Emit(J{"ev": "call", "api": api, "x": x, "a": projectArgs(a0), "r": run(api, a0, x), "rs": rs, "rr": rr})
 	}
 	return readLines(c.In, func(j J) error {
 		api := asS(j["api"])
